@@ -81,6 +81,10 @@ CHECKS = {
     "C27": dict(category="model_checking",
         technique="Packetize.tla (same output for every completion order, progress) + trace validation against Observe.tla of the same stream retrieved under different pacing policies",
         text="Every policy that completes must give the same packets/recon; drain-after-each-send must complete.", note="Policies sampled (each, every:k, none, random with delays).", design="4 (C27)"),
+    "C25": dict(category="model_checking",
+        technique="TLA+ spec RangeCoder.tla (arithmetic coder as exact integer interval arithmetic: writer interval, reader window, CDF adaptation): TLC exhaustive on small alphabets/sequences (decode = encode, range invariants, CDF monotonicity, adaptation in lock step) + replay of TLC/grid-generated symbol sequences through the real writer (EbBitstreamUnit.c) and the real reader (EbDecBitReader.h), every step's range and both CDF arrays judged by RangeCoderTrace",
+        text="Round trip, range bounds and synchronous adaptation are invariants checked by TLC for every sequence up to the configured length over alphabets 2..4 with extreme CDFs; the real writer/reader pair is driven through alphabets 2..16, extreme/zero-probability CDFs, booleans and literals, with the model recomputing the expected range and CDF after every symbol.",
+        note="Carry propagation/byte output is judged only by round trip (the model keeps the interval as an unbounded integer); sequences sampled beyond the exhaustive bound.", design="4 (C25)"),
     "C23": dict(
         category="model_checking",
         technique="TLA+ spec SRM.tla: TLC exhaustive (SRMMC, safety + liveness under fairness) + trace validation (SRMTrace) of the hooked real SRM under a perturbed stress driver and on every SRM instance of real encodes",
